@@ -134,10 +134,16 @@ fn cstr(b: &[u8], off: usize) -> Option<&[u8]> { let s = b.get(off..)?; let n = 
 fn indep_build_id(b: &[u8]) -> Option<Vec<u8>> {
     let (_, shs, strndx) = sections(b)?;
     let strtab = shs.get(strndx)?;
+    let _ = strtab;
     for s in &shs {
-        if s.typ == 7 && cstr(b, (strtab.offset + s.name as u64) as usize)? == b".note.gnu.build-id" {
-            let o = s.offset as usize; let namesz = rd(b, o, 4)? as usize; let descsz = rd(b, o + 4, 4)? as usize; let ty = rd(b, o + 8, 4)?;
-            if ty == 3 && b.get(o + 12..o + 12 + 3)? == b"GNU" { let d = o + 12 + ((namesz + 3) & !3); return Some(b.get(d..d + descsz)?.to_vec()); }
+        if s.typ != 7 { continue; }
+        // every note of every SHT_NOTE section: namesz, descsz, type, name (4-aligned), desc (4-aligned)
+        let mut o = s.offset as usize; let end = (s.offset + s.size) as usize;
+        while o + 12 <= end {
+            let namesz = rd(b, o, 4)? as usize; let descsz = rd(b, o + 4, 4)? as usize; let ty = rd(b, o + 8, 4)?;
+            let d = o + 12 + ((namesz + 3) & !3);
+            if ty == 3 && namesz == 4 && b.get(o + 12..o + 16)? == b"GNU\0" { return Some(b.get(d..d + descsz)?.to_vec()); }
+            o = d + ((descsz + 3) & !3);
         }
     }
     // no note: XOR-fold of the first page of the first executable PROGBITS section
@@ -256,3 +262,6 @@ pub fn run_synth(a: &Args) {
     }
     out.finish(&a.out, "well-formed synthetic ELF64 images (no program headers): an executable PROGBITS section of size {1..12289} at file offsets {0x40..0x2345, aligned and not}, with no note / a 4-aligned / an 8-aligned GNU build-id note; expected id computed by construction (note descriptor, else XOR-fold of the first 4096 text bytes); small images also go through the Coq model");
 }
+
+pub fn indep_build_id_pub(b: &[u8]) -> Option<Vec<u8>> { indep_build_id(b) }
+pub fn indep_soname_pub(b: &[u8]) -> Option<Vec<u8>> { indep_soname(b) }
